@@ -8,14 +8,29 @@ def run(tier):
     binp = c01.build(sd)
     cs, r = cases.enumerate_cases("GenFaults", "GenFaultsThorough.cfg" if tier == "thorough" else "GenFaultsQuick.cfg")
     chk.add_tlc("fault sequences x feature switches x strategies (spec/Faults.tla)", r)
+    # cases with a dead backend under active checks run against the real process (a crash is an observation there,
+    # not the end of the harness); everything else in-process, where gauges and listings can be read as well
+    act = [c for c in cs if c["dead"] != "none"]
+    cs = [c for c in cs if c["dead"] == "none"]
     tp = cases.execute([binp, "fault"], cs, sd, "fault", timeout=3400, extra_args=[str(vlib.seed()), "48"])
+    import os, subprocess
+    hb = os.path.join(sd, "helios")
+    genv = dict(vlib.GOENV, GOCACHE=os.environ.get("GOCACHE", "/var/tmp/helios-verif-gocache"))
+    p = subprocess.run(["go", "build", "-o", hb, "./cmd/helios"], cwd=vlib.REPO, env=genv, stdout=subprocess.PIPE, stderr=subprocess.STDOUT, text=True)
+    if p.returncode != 0:
+        raise vlib.FrameworkError("cannot build cmd/helios: " + p.stdout[-1500:])
+    tpa = cases.execute([binp, "fault"], act, sd, "faultproc", timeout=1800, extra_args=[str(vlib.seed()), "16"], env={"PROXYSIM_BIN": hb})
+    with open(tp, "a") as fo, open(tpa) as fi:
+        fo.write(fi.read())
+    chk.cov["process_level_cases"] = len(act)
+    cs = cs + act
     chk.cov["traces_validated_against_impl"] = len(cs)
     for c in cs:
         chk.count_case(c)
 
     def sig(clause, e):
         c = e["c"]
-        return {"clause": clause, "faults": c["faults"], "stall": any(f.startswith("stall_body") for f in c["faults"]), "strategy": c["strategy"], "f": c["f"],
+        return {"clause": clause, "faults": c["faults"], "stall": any(f.startswith("stall_body") for f in c["faults"]), "strategy": c["strategy"], "f": c["f"], "dead": c["dead"],
                 "outcomes": [r.get("outcome") for r in e["o"].get("reqs", [])], "probe": e["o"].get("probe"), "second": e["o"].get("second")}
     cases.judge(chk, "ObsFaultsTrace", "ObsFaultsTrace.cfg", tp, sig, "fault")
     chk.sample({"case": cs[len(cs) // 2]})
